@@ -87,6 +87,12 @@ CANARIES = [
     ('c01-unreserve-word', 'C01', 'mindsdb_sql/parser/ast/select/identifier.py', "    'ORDER', 'BY', 'GROUP', 'PARTITION'\n}", "    'ORDER', 'BY', 'GROUP', 'PARTITION'\n}\nNOT_RESERVED = {'WINDOW', 'HAVING'}",  None),
     ('c01-skip-reserved-with-digits', 'C01', 'mindsdb_sql/parser/ast/select/identifier.py', "        if '_' not in word:", "        if '_' not in word and not word.startswith('H'):", 'C01.reserved.'),
     ('c01-between-lowercase-and', 'C01', 'mindsdb_sql/parser/ast/select/operation.py', "return f'{arg_strs[0]} BETWEEN {arg_strs[1]} AND {arg_strs[2]}'", "return f'{arg_strs[0]} BETWEEN {arg_strs[1]}, {arg_strs[2]}'", 'C01.'),
+    ('c10-case-sensitive-again', 'C10', 'mindsdb_sql/planner/plan_join.py', "            if table.parts[0].lower() in self.planner.databases:\n                integration = table.parts.pop(0).lower()",
+     "            if table.parts[0] in self.planner.databases:\n                integration = table.parts.pop(0)", 'C10.resolve.agree'),
+    ('c10-resolve-keep-qualifier', 'C10', 'mindsdb_sql/planner/query_planner.py', "                database = parts.pop(0).lower()", "                database = parts[0].lower()", 'C10.resolve.spec'),
+    ('c10-version-lost', 'C10', 'mindsdb_sql/planner/query_planner.py', "            version = name_parts[-1]\n            name_parts = name_parts[:-1]", "            name_parts = name_parts[:-1]", 'C10.model.lookup'),
+    ('c10-strip-any-first', 'C10', 'mindsdb_sql/planner/query_planner.py', "            if len(node.parts) > 1 and node.parts[0].lower() == database:", "            if len(node.parts) > 1 and node.parts[0].lower() in self.databases:", 'C10.strip'),
+    ('c10-dict-name-not-lowered', 'C10', 'mindsdb_sql/planner/query_planner.py', "                    integration_name = integration['name'].lower()", "                    integration_name = integration['name']", 'C10.init'),
 ]
 
 
